@@ -229,7 +229,7 @@ fn movegen(args: &[String]) -> i32 {
 // ------------------------------------------------------------------------------------------------ C15
 fn tt_seq(args: &[String]) -> i32 {
     let len = num_arg(args, "len", 4);
-    let mut rep = Report::new("tt-seq", &format!("all store/retrieve sequences of length <= {} over 2 keys x depths 1..3 x moves {{None, a, b}} x 2 scores x 3 bounds", len));
+    let mut rep = Report::new("tt-seq", &format!("all store/retrieve sequences of length <= {} over 2 keys (equal in their low 32 bits) x depths 1..3 x moves {{None, a, b}} (x 2 scores x 3 bounds on the last operation); oracle = the property as stated: a lookup returns nothing, or a record stored under that key that no later equal-or-deeper store superseded; a shallower store never displaces a retrievable deeper one", len));
     let mv_a = Move::new(8, 16, Piece::Pawn, MoveType::Quiet);
     let mv_b = Move::new(1, 18, Piece::Knight, MoveType::Quiet);
     let keys = [11u64, 0xFFFF_FFFF_0000_000Bu64];
@@ -242,19 +242,29 @@ fn tt_seq(args: &[String]) -> i32 {
     let small: Vec<_> = ops.iter().cloned().filter(|o| o.3 == 5 && o.4 == 0).collect();
     fn rec(seq: &mut Vec<(usize, u8, usize, i32, usize)>, len: usize, small: &Vec<(usize, u8, usize, i32, usize)>, all: &Vec<(usize, u8, usize, i32, usize)>,
            keys: &[u64; 2], moves: &[Option<Move>; 3], bounds: &[Bounds; 3], rep: &mut Report) -> bool {
-        // check this sequence
+        // check this sequence against the property AS STATED (a lookup may always return nothing - a bounded table may evict):
+        //  R2 what is returned for k is a record some earlier store put under exactly k;
+        //  R1 it is not a record that a LATER store on k of equal or greater depth must have replaced (stale data);
+        //  R3 storing a strictly shallower result over a retrievable deeper one leaves the deeper one (or nothing), never the shallower.
         let mut tt = TranspositionTable::new();
-        let mut model: HashMap<u64, (i32, Option<Move>, u8, usize)> = HashMap::new();
-        for o in seq.iter() {
+        let field = |o: &(usize, u8, usize, i32, usize)| (o.3, moves[o.2], o.1, o.4);
+        for (n, o) in seq.iter().enumerate() {
+            let before = tt.retrieve(keys[o.0]).map(|e| (e.eval, e.best_move, e.depth, match e.bounds { Bounds::Exact => 0usize, Bounds::Lower => 1, Bounds::Upper => 2 }));
             tt.store(keys[o.0], o.3, moves[o.2], o.1, bounds[o.4]);
-            let replace = match model.get(&keys[o.0]) { None => true, Some(e) => e.2 <= o.1 };
-            if replace { model.insert(keys[o.0], (o.3, moves[o.2], o.1, o.4)); }
             rep.evals += 1;
-            for k in keys.iter() {
-                let got = tt.retrieve(*k).map(|e| (e.eval, e.best_move, e.depth, match e.bounds { Bounds::Exact => 0, Bounds::Lower => 1, Bounds::Upper => 2 }, e.hash_key));
-                let want = model.get(k).map(|e| (e.0, e.1, e.2, e.3, *k));
-                if got != want {
-                    rep.violation = Some(format!("{{\"input\": {{\"ops (key index, depth, move index [0=None,1=a,2=b], score, bound)\": {}, \"lookup_key\": {}}}, \"real\": {}, \"expected\": {}}}", jstr(&format!("{:?}", seq)), k, jstr(&format!("{:?}", got)), jstr(&format!("{:?}", want))));
+            for (ki, k) in keys.iter().enumerate() {
+                let got = tt.retrieve(*k).map(|e| (e.eval, e.best_move, e.depth, match e.bounds { Bounds::Exact => 0usize, Bounds::Lower => 1, Bounds::Upper => 2 }, e.hash_key));
+                let g = match got { None => continue, Some(g) => g };
+                let rec4 = (g.0, g.1, g.2, g.3);
+                // latest earlier store on this key with exactly these fields
+                let src = (0..=n).rev().find(|&i| seq[i].0 == ki && field(&seq[i]) == rec4);
+                let why = if g.4 != *k { Some("entry carries another key".to_string()) }
+                    else if src.is_none() { Some("no store on this key ever put this record".to_string()) }
+                    else if let Some(j) = ((src.unwrap() + 1)..=n).find(|&j| seq[j].0 == ki && seq[j].1 >= g.2) { Some(format!("stale: operation #{} stored an equal or deeper result for this key afterwards", j)) }
+                    else if ki == o.0 && before.map(|b| b.2 > o.1).unwrap_or(false) && rec4 == field(o) && before != Some(rec4) { Some("a shallower result replaced a deeper one".to_string()) }
+                    else { None };
+                if let Some(w) = why {
+                    rep.violation = Some(format!("{{\"input\": {{\"ops (key index, depth, move index [0=None,1=a,2=b], score, bound)\": {}, \"lookup_key\": {}}}, \"real\": {}, \"expected\": {}}}", jstr(&format!("{:?}", &seq[..=n])), k, jstr(&format!("{:?}", got)), jstr(&format!("nothing, or the record most recently accepted for this key ({})", w))));
                     return true;
                 }
             }
